@@ -113,6 +113,8 @@ func cmdRun(args []string) {
 	noint := fs.Bool("no-int", false, "disable integer mode")
 	native := fs.Bool("native", false, "replay violations natively")
 	prefix := fs.String("prefix", "", "DFS prefix")
+	stubs := fs.String("stubs", "", "fn=replacement,...")
+	swaps := fs.Int("shuffle-swaps", 0, "number of arbitrary swaps modelling rand.Shuffle")
 	fs.Parse(args)
 	var iargs []int
 	if *argstr != "" {
@@ -131,7 +133,7 @@ func cmdRun(args []string) {
 		os.Exit(2)
 	}
 	knownOpen, _ := loadKnown()
-	res := sym.RunJob(p, sym.Job{Pkg: full, Harness: *harness, Args: iargs, Prefix: parseInts(*prefix), Cfg: sym.JobConfig{KnownOpen: knownOpen, NoMerge: *nomerge, NoIntMode: *noint, MapOrder: *maporder, SampleEvery: 1, MaxSamples: 3}}, *solver, 60000)
+	res := sym.RunJob(p, sym.Job{Pkg: full, Harness: *harness, Args: iargs, Prefix: parseInts(*prefix), Cfg: sym.JobConfig{Stubs: parseStubs(*stubs), ShuffleSwaps: *swaps, KnownOpen: knownOpen, NoMerge: *nomerge, NoIntMode: *noint, MapOrder: *maporder, SampleEvery: 1, MaxSamples: 3}}, *solver, 60000)
 	res.Functions = nil
 	out, _ := json.MarshalIndent(res, "", " ")
 	fmt.Println(string(out))
@@ -163,4 +165,18 @@ func parseInts(s string) []int {
 		r = append(r, v)
 	}
 	return r
+}
+
+func parseStubs(s string) map[string]string {
+	m := map[string]string{}
+	if s == "" {
+		return m
+	}
+	for _, kv := range strings.Split(s, ",") {
+		p := strings.SplitN(kv, "=", 2)
+		if len(p) == 2 {
+			m[p[0]] = p[1]
+		}
+	}
+	return m
 }
